@@ -266,7 +266,7 @@ impl Family for C01Family {
             }
         }
         let udp = (0..n_udp)
-            .map(|_| UdpClient { via_socks: r.chance(1, 2), target: r.below(n_udp_targets), start_ms: r.below(200) as u64, sizes: (0..(1 + r.below(4))).map(|_| *r.pick(&[0usize, 1, 2, 3, 4, 13, 100, 1400, 9000])).collect(), gap_ms: if r.chance(1, 6) { *r.pick(&[10_500u64, 15_000, 19_500, 25_000]) } else { *r.pick(&[0u64, 10, 300, 900]) }, hops: (0..4).map(|_| r.below(2)).collect(), junk: (0..4).map(|_| if r.chance(1, 4) { 1 + r.below(4) as u8 } else { 0 }).collect(), v6: { let mixed = r.chance(1, 4); (0..4).map(|_| mixed && r.chance(1, 2)).collect() }, alt_local: false, burst: 0 })
+            .map(|_| UdpClient { via_socks: r.chance(1, 2), target: r.below(n_udp_targets), start_ms: r.below(200) as u64, sizes: (0..(1 + r.below(4))).map(|_| *r.pick(&[0usize, 1, 2, 3, 4, 13, 100, 1400, 9000])).collect(), gap_ms: if r.chance(1, 6) { *r.pick(&[10_500u64, 15_000, 19_500, 25_000]) } else { *r.pick(&[0u64, 10, 300, 900]) }, hops: (0..4).map(|_| r.below(2)).collect(), junk: (0..4).map(|_| if r.chance(1, 4) { 1 + r.below(4) as u8 } else { 0 }).collect(), v6: { let mixed = r.chance(1, 4); (0..4).map(|_| mixed && r.chance(1, 2)).collect() }, alt_local: false, burst: 0, stream_n: if r.chance(1, 8) { 2 + r.below(5) } else { 0 } })
             .collect();
         // a quarter of the runs with UDP remotes bind them to the wildcard address (no local host in
         // the remote specification); some clients then come in through the secondary local address
@@ -277,7 +277,7 @@ impl Family for C01Family {
         // reply three seconds later
         if n_udp > 0 && !faulty_udp && r.chance(1, 10) {
             let n = 1 + r.below(2);
-            udp = (0..n).map(|_| UdpClient { via_socks: false, target: r.below(n_udp_targets), start_ms: 100, sizes: vec![4; 1 + r.below(2)], gap_ms: 0, hops: vec![], junk: vec![], v6: vec![], alt_local: false, burst: 70 + r.below(130) }).collect();
+            udp = (0..n).map(|_| UdpClient { via_socks: false, target: r.below(n_udp_targets), start_ms: 100, sizes: vec![4; 1 + r.below(2)], gap_ms: 0, hops: vec![], junk: vec![], v6: vec![], alt_local: false, burst: 70 + r.below(130), stream_n: 0 }).collect();
             net.buf_cap = net.buf_cap.max(65_536);
         }
         if udp_wildcard {
@@ -307,7 +307,7 @@ fn c01() -> Check {
         engine: "syssim",
         level: "exploration",
         families: vec![Box::new(C01Family)],
-        required_probes: vec!["entry:TCP-port remote", "entry:Unix-socket remote", "entry:SOCKS4", "entry:SOCKS4a", "entry:SOCKS5/IPv4", "entry:SOCKS5/domain", "entry:SOCKS5/IPv6", "entry:HTTP CONNECT", "client-half-closed-first", "target-half-closed-first", "target-refused-or-closed-early", "client-closed-on-silent-target", "udp-via-socks5", "udp-via-remote", "udp-payload-under-4-bytes", "concurrent-udp-clients", "one-association-several-targets", "entry:HTTP CONNECT/IPv6 literal", "target-closed-without-reading-while-uploader-out-of-credit", "fault:unparseable-datagram-to-socks5-relay", "udp-client-idle-longer-than-the-prune-timeout", "udp-reply-after-a-burst-beyond-the-server-queue", "client-closed-while-target-was-sending"],
+        required_probes: vec!["entry:TCP-port remote", "entry:Unix-socket remote", "entry:SOCKS4", "entry:SOCKS4a", "entry:SOCKS5/IPv4", "entry:SOCKS5/domain", "entry:SOCKS5/IPv6", "entry:HTTP CONNECT", "client-half-closed-first", "target-half-closed-first", "target-refused-or-closed-early", "client-closed-on-silent-target", "udp-via-socks5", "udp-via-remote", "udp-payload-under-4-bytes", "concurrent-udp-clients", "one-association-several-targets", "entry:HTTP CONNECT/IPv6 literal", "target-closed-without-reading-while-uploader-out-of-credit", "fault:unparseable-datagram-to-socks5-relay", "udp-client-idle-longer-than-the-prune-timeout", "udp-reply-after-a-burst-beyond-the-server-queue", "client-closed-while-target-was-sending", "udp-target-streams-longer-than-the-prune-timeout"],
         assumptions: vec!["UDP exchanges stay inside the prune window and below the datagram buffers, so a missing reply cannot be excused in fault-free configurations", "the SOCKS5 UDP reply header is only required to be well-formed per RFC 1928 and to carry the payload (the statement does not fix its address fields)", "TLS not simulated (ws://)"],
         real: vec!["penguin client: client_main_inner, handle_tcp/udp/socks/http, UDP client-id maps, bridges", "penguin server: run_listener, hyper serve_connection_with_upgrades, State service, handle_websocket, tcp_forwarder_on_channel, udp_forward_on", "tokio-tungstenite both sides", "penguin-mux + penguin-socks + hyper (CONNECT)"],
         stub: vec!["tokio::net (penguin-simnet)", "local clients (written against RFC 1928 / SOCKS4a / HTTP CONNECT)", "targets", "clock (paused), scheduler RNG (seeded)"],
